@@ -364,7 +364,7 @@ Section OpenSSHCipher.
     unfold openssh_decrypt. rewrite Hnone, Hknown. change (zlist_eqb BCRYPT_ BCRYPT_) with true. cbn [negb].
     rewrite get_string_sshstring by lia.
     replace (u32 rounds) with (u32 rounds ++ []) by apply app_nil_r. rewrite get_u32_u32 by exact Hrounds.
-    rewrite Hde. subst plain. apply (private_section_roundtrip params enc_priv dec_priv dec_enc_priv); [assumption|assumption|lia].
+    rewrite Hde. subst plain. apply (private_section_roundtrip params enc_priv dec_priv cipher_known block_size kdf encrypt decrypt dec_enc_priv); [assumption|assumption|lia].
   Qed.
 End OpenSSHCipher.
 
@@ -405,4 +405,369 @@ Proof.
   rewrite (der_roundtrip _ H2). cbn [pkcs8_private pkcs8_private_shape is_0_or_1].
   change ((0 =? 0) || (0 =? 1)) with true. cbn iota. change (zlist_eqb RSA_OID RSA_OID) with true. cbn iota.
   unfold rsa_decode_pkcs8_private. rewrite (der_roundtrip _ H1). reflexivity.
+Qed.
+
+(* ------------------------------------------------------------------------------------------- *)
+(* text formats: line splitting and blanks *)
+
+Definition no_nl (s : bytes) : Prop := ~ In NL s.
+Definition no_ws (s : bytes) : bool := forallb (fun c => negb (is_ws c)) s.
+
+Lemma split_nl_app s t : no_nl s -> split_nl (s ++ NL :: t) = s :: split_nl t.
+Proof.
+  induction s as [|c s IH]; intros H.
+  - cbn [app split_nl]. change (NL =? NL) with true. reflexivity.
+  - cbn [app split_nl]. destruct (c =? NL) eqn:E; [apply Z.eqb_eq in E; subst; exfalso; apply H; left; reflexivity|].
+    rewrite IH by (intros Hin; apply H; right; exact Hin). reflexivity.
+Qed.
+
+Lemma split_nl_nonl s : no_nl s -> split_nl s = [s].
+Proof.
+  induction s as [|c s IH]; intros H; [reflexivity|].
+  cbn [split_nl]. destruct (c =? NL) eqn:E; [apply Z.eqb_eq in E; subst; exfalso; apply H; left; reflexivity|].
+  rewrite IH by (intros Hin; apply H; right; exact Hin). reflexivity.
+Qed.
+
+Lemma join_split_nl s : join_nl (split_nl s) = s.
+Proof.
+  induction s as [|c s IH]; [reflexivity|]. cbn [split_nl].
+  destruct (c =? NL) eqn:E.
+  - apply Z.eqb_eq in E. subst. destruct (split_nl s) as [|h t] eqn:Hs.
+    + destruct s; cbn in Hs; [discriminate|]. destruct (z =? NL); [discriminate|]. destruct (split_nl s); discriminate.
+    + cbn [join_nl app]. rewrite <- IH. reflexivity.
+  - destruct (split_nl s) as [|h t] eqn:Hs.
+    + destruct s; cbn in Hs; [discriminate|]. destruct (z =? NL); [discriminate|]. destruct (split_nl s); discriminate.
+    + rewrite <- IH. destruct t; reflexivity.
+Qed.
+
+Lemma no_ws_no_nl s : no_ws s = true -> no_nl s.
+Proof.
+  unfold no_ws, no_nl. rewrite forallb_forall. intros H Hin. specialize (H NL Hin). discriminate.
+Qed.
+
+Lemma no_nl_app a b : no_nl a -> no_nl b -> no_nl (a ++ b).
+Proof. unfold no_nl. intros Ha Hb Hin. apply in_app_or in Hin. tauto. Qed.
+
+Lemma lstrip_nows c r : is_ws c = false -> lstrip (c :: r) = c :: r.
+Proof. intros H. cbn [lstrip]. rewrite H. reflexivity. Qed.
+
+Lemma rstrip_nows s c : is_ws c = false -> rstrip (s ++ [c]) = s ++ [c].
+Proof.
+  intros H. unfold rstrip. rewrite rev_app_distr. cbn [rev app]. rewrite lstrip_nows by exact H.
+  change (c :: rev s) with ([c] ++ rev s). rewrite rev_app_distr, rev_involutive. reflexivity.
+Qed.
+
+(* take_word stops at the first blank *)
+Lemma take_word_app w r : no_ws w = true -> (r = [] \/ exists c r', r = c :: r' /\ is_ws c = true) ->
+  take_word (w ++ r) = (w, r).
+Proof.
+  induction w as [|c w IH]; intros Hw Hr.
+  - cbn [app]. destruct Hr as [->|(c & r' & -> & Hc)]; [reflexivity|]. cbn [take_word]. rewrite Hc. reflexivity.
+  - cbn in Hw. apply andb_true_iff in Hw as [Hc Hw]. apply negb_true_iff in Hc.
+    cbn [app take_word]. rewrite Hc, IH by assumption. reflexivity.
+Qed.
+
+Lemma b2a_no_ws data : Forall is_byte data -> no_ws (b2a data) = true.
+Proof.
+  intros Hb. pose proof (b2a_relevant data Hb) as H. unfold no_ws. rewrite forallb_forall in *.
+  intros c Hin. specialize (H c Hin). unfold b64_relevant in H.
+  destruct (is_ws c) eqn:E; [|reflexivity]. exfalso.
+  unfold is_ws in E. repeat (apply orb_true_iff in E as [E|E]); apply Z.eqb_eq in E; subst c; discriminate.
+Qed.
+
+Lemma b2a_nonempty data : data <> [] -> exists c r, b2a data = c :: r.
+Proof. destruct data as [|a [|b [|c r]]]; intros H; [congruence| | |]; cbn [b2a]; eauto. Qed.
+
+Definition PUBLIC_KEY : bytes := [80; 85; 66; 76; 73; 67; 32; 75; 69; 89].
+Definition PRIVATE_KEY : bytes := [80; 82; 73; 86; 65; 84; 69; 32; 75; 69; 89].
+
+(* data not starting with 0x30 is never tried as DER *)
+Lemma match_next_text known data keytype public :
+  hd 0 data <> 48 ->
+  match_next known data keytype public =
+  scan_lines known keytype public (split_nl data) (split_nl data).
+Proof.
+  intros H. unfold match_next. destruct data as [|c r]; [reflexivity|]. cbn [hd] in H.
+  destruct c as [|p|p]; try reflexivity.
+  do 6 (destruct p as [p|p|]; try reflexivity). exfalso. apply H. reflexivity.
+Qed.
+
+Definition comment_survives_line (c : bytes) : Prop :=
+  no_nl c /\ exists a m z, (c = [a] \/ c = a :: m ++ [z]) /\ is_ws a = false /\ is_ws z = false /\ (c = [a] -> z = a).
+
+(* export_public_key('openssh') followed by the public-key sniffing of import_public_key:
+   same algorithm, blob and comment, for every comment that has no newline and no blank at either
+   end (see the refuted statements for the others) *)
+Theorem openssh_public_line_roundtrip known alg a0 alg' blob comment :
+  alg = a0 :: alg' -> a0 <> 45 -> a0 <> 48 -> no_ws alg = true -> known alg = true ->
+  Forall is_byte blob -> blob <> [] ->
+  match comment with Some c => comment_survives_line c | None => True end ->
+  match_next known (export_openssh_public alg blob comment) PUBLIC_KEY true = FOpenSSH alg comment blob [].
+Proof.
+  intros Halg H45 H48 Hws Hknown Hb Hne Hcm.
+  set (tail := match comment with Some c => 32 :: c | None => [] end).
+  assert (Htext : export_openssh_public alg blob comment = (alg ++ [32] ++ b2a blob ++ tail) ++ [NL]).
+  { unfold export_openssh_public, tail. rewrite <- !app_assoc. reflexivity. }
+  pose proof (b2a_no_ws blob Hb) as Hbws. destruct (b2a_nonempty blob Hne) as (b0 & b' & Hb2a).
+  assert (Hb0 : is_ws b0 = false).
+  { unfold no_ws in Hbws. rewrite Hb2a in Hbws. cbn in Hbws. apply andb_true_iff in Hbws as [H _].
+    apply negb_true_iff in H. exact H. }
+  assert (Ha0 : is_ws a0 = false).
+  { subst alg. cbn in Hws. apply andb_true_iff in Hws as [H _]. apply negb_true_iff in H. exact H. }
+  (* the line has no newline and ends with a non-blank *)
+  assert (Htail_nl : no_nl tail).
+  { unfold tail. destruct comment as [c|]; [|intros []]. destruct Hcm as [Hnl _].
+    intros [Hin|Hin]; [discriminate|]. exact (Hnl Hin). }
+  assert (Hline_nl : no_nl (alg ++ [32] ++ b2a blob ++ tail)).
+  { apply no_nl_app; [apply no_ws_no_nl, Hws|]. apply no_nl_app; [intros [H|[]]; discriminate|].
+    apply no_nl_app; [apply no_ws_no_nl, Hbws|exact Htail_nl]. }
+  assert (Hlast : exists pre z, alg ++ [32] ++ b2a blob ++ tail = pre ++ [z] /\ is_ws z = false).
+  { unfold tail. destruct comment as [c|].
+    - destruct Hcm as [_ (a & m & z & Hshape & Hwa & Hwz & Hone)]. destruct Hshape as [->| ->].
+      + exists (alg ++ [32] ++ b2a blob ++ [32]), a. split; [rewrite <- !app_assoc; reflexivity|exact Hwa].
+      + exists (alg ++ [32] ++ b2a blob ++ 32 :: a :: m), z. split; [|exact Hwz].
+        rewrite <- !app_assoc. cbn [app]. reflexivity.
+    - rewrite app_nil_r.
+      destruct (exists_last (l := b2a blob) ltac:(rewrite Hb2a; discriminate)) as (pre & z & Hpz).
+      exists (alg ++ [32] ++ pre), z. split; [rewrite Hpz, <- !app_assoc; reflexivity|].
+      unfold no_ws in Hbws. rewrite Hpz, forallb_app in Hbws. apply andb_true_iff in Hbws as [_ H].
+      cbn in H. rewrite andb_true_r in H. apply negb_true_iff in H. exact H. }
+  destruct Hlast as (pre & z & Hpz & Hz).
+  rewrite Htext. rewrite match_next_text by (subst alg; cbn; exact H48).
+  assert (Hscan : scan_lines known PUBLIC_KEY true (split_nl ((alg ++ [32] ++ b2a blob ++ tail) ++ [NL]))
+                    (split_nl ((alg ++ [32] ++ b2a blob ++ tail) ++ [NL])) = FOpenSSH alg comment blob []).
+  { rewrite split_nl_app by exact Hline_nl. cbn [split_nl scan_lines].
+    rewrite Hpz, rstrip_nows by exact Hz. rewrite <- Hpz.
+    assert (Hbeg : zprefix BEGIN_PEM (alg ++ [32] ++ b2a blob ++ tail) = false).
+    { subst alg. cbn [app BEGIN_PEM zprefix]. destruct (45 =? a0) eqn:E; [apply Z.eqb_eq in E; congruence|reflexivity]. }
+    rewrite Hbeg. cbn [andb].
+    assert (Hrfc : zlist_eqb (alg ++ [32] ++ b2a blob ++ tail) RFC4716_BEGIN = false).
+    { subst alg. cbn [app RFC4716_BEGIN zlist_eqb]. destruct (a0 =? 45) eqn:E; [apply Z.eqb_eq in E; congruence|reflexivity]. }
+    rewrite Hrfc. cbn [andb].
+    (* _parse_openssh *)
+    unfold parse_openssh.
+    assert (Hl1 : lstrip (alg ++ [32] ++ b2a blob ++ tail) = alg ++ [32] ++ b2a blob ++ tail).
+    { subst alg. cbn [app]. apply lstrip_nows. exact Ha0. }
+    rewrite Hl1. rewrite take_word_app; [|exact Hws|right; eexists _, _; split; [reflexivity|reflexivity]].
+    cbn [app]. change (lstrip (32 :: b2a blob ++ tail)) with (lstrip (b2a blob ++ tail)).
+    assert (Hl2 : lstrip (b2a blob ++ tail) = b2a blob ++ tail).
+    { rewrite Hb2a. cbn [app]. apply lstrip_nows. exact Hb0. }
+    rewrite Hl2. rewrite take_word_app; [|exact Hbws|].
+    2:{ unfold tail. destruct comment; [right; eexists _, _; split; reflexivity|left; reflexivity]. }
+    subst alg. rewrite Hb2a. rewrite <- Hb2a. rewrite Hknown.
+    rewrite (a2b_b2a blob Hb).
+    unfold tail. destruct comment as [c|].
+    - destruct Hcm as [_ (a & m & z' & Hshape & Hwa & _ & _)].
+      assert (Hlc : lstrip (32 :: c) = c).
+      { change (lstrip (32 :: c)) with (lstrip c). destruct Hshape as [->| ->]; apply lstrip_nows; exact Hwa. }
+      rewrite Hlc. destruct c as [|c0 c']; [destruct Hshape as [H|H]; discriminate|]. reflexivity.
+    - reflexivity. }
+  exact Hscan.
+Qed.
+
+(* ... and where it fails: a newline or a leading blank in the comment changes what is read back *)
+Lemma openssh_public_comment_newline_not_preserved :
+  match_next (fun _ => true) (export_openssh_public [115; 115; 104] [1; 2; 3] (Some [97; 10; 98])) PUBLIC_KEY true =
+  FOpenSSH [115; 115; 104] (Some [97]) [1; 2; 3] [98; 10].
+Proof. vm_compute. reflexivity. Qed.
+
+Lemma openssh_public_comment_blank_not_preserved :
+  match_next (fun _ => true) (export_openssh_public [115; 115; 104] [1; 2; 3] (Some [32; 97])) PUBLIC_KEY true =
+  FOpenSSH [115; 115; 104] (Some [97]) [1; 2; 3] [].
+Proof. vm_compute. reflexivity. Qed.
+
+Lemma rfc4716_comment_newline_not_importable :
+  match_next (fun _ => true) (export_rfc4716 [1; 2; 3] (Some [97; 10; 98])) PUBLIC_KEY true = FErr ImportErr.
+Proof. vm_compute. reflexivity. Qed.
+
+(* ------------------------------------------------------------------------------------------- *)
+(* PEM armour: wrap_base64 followed by _match_next / match_base64 / _parse_pem *)
+
+Lemma split_nl_nonempty s : exists h t, split_nl s = h :: t.
+Proof.
+  induction s as [|c s IH]; [cbn; eauto|]. destruct IH as (h & t & IH).
+  cbn [split_nl]. destruct (c =? NL); [eauto|]. rewrite IH. eauto.
+Qed.
+
+Lemma split_nl_app_gen a t : split_nl (a ++ NL :: t) = split_nl a ++ split_nl t.
+Proof.
+  induction a as [|c a IH]; [reflexivity|]. cbn [app split_nl]. destruct (c =? NL).
+  - rewrite IH. reflexivity.
+  - rewrite IH. destruct (split_nl_nonempty a) as (h & tl & ->). reflexivity.
+Qed.
+
+Lemma in_split_nl s l c : In l (split_nl s) -> In c l -> In c s.
+Proof.
+  revert l. induction s as [|x s IH]; intros l Hl Hc.
+  - cbn in Hl. destruct Hl as [<-|[]]. destruct Hc.
+  - cbn [split_nl] in Hl. destruct (x =? NL).
+    + destruct Hl as [<-|Hl]; [destruct Hc|]. right. eapply IH; eauto.
+    + destruct (split_nl_nonempty s) as (h & tl & Hs). rewrite Hs in *. destruct Hl as [<-|Hl].
+      * destruct Hc as [->|Hc]; [left; reflexivity|]. right. eapply IH; [left; reflexivity|exact Hc].
+      * right. eapply IH; [right; exact Hl|exact Hc].
+Qed.
+
+Lemma lines_concat ls : ls <> [] -> concat (map (fun l => l ++ [NL]) ls) = join_nl ls ++ [NL].
+Proof.
+  induction ls as [|l ls IH]; intros H; [congruence|]. cbn [map concat].
+  destruct ls as [|l2 ls']; [cbn; rewrite app_nil_r; reflexivity|].
+  rewrite IH by discriminate. cbn [join_nl]. rewrite <- !app_assoc. reflexivity.
+Qed.
+
+Lemma find_footer_skip footer f0 ls tail :
+  hd 0 footer = 45 -> footer = f0 :: tl footer -> Forall (fun l => hd 0 l <> 45) ls -> tail <> [] ->
+  find_footer footer (ls ++ tail) =
+  match find_footer footer tail with
+  | Some (b, r) => Some (concat (map (fun l => l ++ [NL]) ls) ++ b, r)
+  | None => None
+  end.
+Proof.
+  intros Hh Hf Hls Htail. induction Hls as [|l ls Hl Hls IH].
+  - cbn [app map concat]. destruct (find_footer footer tail) as [[b r]|]; reflexivity.
+  - cbn [app find_footer].
+    assert (Hp : zprefix footer l = false).
+    { rewrite Hf. destruct l as [|c l']; [reflexivity|]. cbn [zprefix]. cbn [hd] in Hl.
+      rewrite Hf in Hh. cbn [hd] in Hh. subst f0.
+      destruct (45 =? c) eqn:E; [apply Z.eqb_eq in E; congruence|reflexivity]. }
+    rewrite Hp. cbn [andb].
+    destruct (ls ++ tail) as [|x xs] eqn:E; [destruct ls; [contradiction|discriminate]|].
+    rewrite IH. destruct (find_footer footer tail) as [[b r]|]; [|reflexivity].
+    cbn [map concat]. rewrite <- !app_assoc. reflexivity.
+Qed.
+
+Lemma split_once_none sep s : ~ In sep s -> split_once sep s = None.
+Proof.
+  induction s as [|c s IH]; intros H; [reflexivity|]. cbn [split_once].
+  destruct (c =? sep) eqn:E; [apply Z.eqb_eq in E; subst; exfalso; apply H; left; reflexivity|].
+  rewrite IH by (intros Hin; apply H; right; exact Hin). reflexivity.
+Qed.
+
+Lemma in_lstrip c s : In c (lstrip s) -> In c s.
+Proof.
+  induction s as [|x s IH]; intros H; [exact H|]. cbn [lstrip] in H.
+  destruct (is_ws x); [right; apply IH, H|exact H].
+Qed.
+
+Lemma in_rstrip c s : In c (rstrip s) -> In c s.
+Proof. unfold rstrip. intros H. apply in_rev in H. apply in_lstrip in H. apply in_rev. exact H. Qed.
+
+Definition only_b64_and_nl (s : bytes) : Prop := forall c, In c s -> b64_relevant c = true \/ c = NL.
+
+Lemma fold_lines_chars wrap t : forall k,
+  forallb b64_relevant t = true -> only_b64_and_nl (fold_lines wrap k t).
+Proof.
+  induction t as [|c t IH]; intros k H x Hin; [destruct Hin|].
+  cbn in H. apply andb_true_iff in H as [Hc Ht]. cbn [fold_lines] in Hin. destruct k as [|k'].
+  - destruct Hin as [<-|[<-|Hin]]; [right; reflexivity|left; exact Hc|eapply IH; eauto].
+  - destruct Hin as [<-|Hin]; [left; exact Hc|eapply IH; eauto].
+Qed.
+
+Lemma relevant_not c : b64_relevant c = true -> c <> 45 /\ c <> COLON.
+Proof. intros H. split; intros ->; discriminate. Qed.
+
+Definition pem_block_type (name : option bytes) (keytype : bytes) : bytes :=
+  match name with Some n => n ++ [32] ++ keytype | None => keytype end.
+
+(* a PEM block written by wrap_base64 (no headers) is found by _match_next, its footer located, and
+   its content decoded to the original bytes, for every data, line width, key type and PEM name *)
+Theorem pem_roundtrip known name keytype data wrap public :
+  Forall is_byte data ->
+  no_nl keytype ->
+  match name with Some n => no_ws n = true /\ n <> [] | None => True end ->
+  match_next known (wrap_base64 data (pem_block_type name keytype) [] false wrap) keytype public =
+  FPem (match name with Some n => n | None => [] end) [] data [].
+Proof.
+  intros Hb Hkt Hname.
+  set (bt := pem_block_type name keytype).
+  set (F := fold_lines wrap wrap (b2a data)).
+  set (beginl := BEGIN_PEM ++ bt ++ DASH5).
+  set (endl := DASH5 ++ [69; 78; 68] ++ [32] ++ bt ++ DASH5).
+  assert (Htext : wrap_base64 data bt [] false wrap = beginl ++ NL :: F ++ NL :: endl ++ NL :: []).
+  { unfold wrap_base64, beginl, endl, F, dashes, sehsad, BEGIN_PEM, BEGIN_, END_, DASH5.
+    rewrite <- ?app_assoc. cbn [app]. rewrite <- ?app_assoc. reflexivity. }
+  assert (Hbt_nl : no_nl bt).
+  { unfold bt, pem_block_type. destruct name as [n|]; [|exact Hkt]. destruct Hname as [Hn _].
+    apply no_nl_app; [apply no_ws_no_nl, Hn|]. apply no_nl_app; [intros [H|[]]; discriminate|exact Hkt]. }
+  assert (Hbegin_nl : no_nl beginl).
+  { unfold beginl. apply no_nl_app; [intros H; cbn in H; repeat destruct H as [H|H]; try discriminate; exact H|].
+    apply no_nl_app; [exact Hbt_nl|]. intros H; cbn in H; repeat destruct H as [H|H]; try discriminate; exact H. }
+  assert (Hendl_nl : no_nl endl).
+  { unfold endl. apply no_nl_app; [intros H; cbn in H; repeat destruct H as [H|H]; try discriminate; exact H|].
+    apply no_nl_app; [intros H; cbn in H; repeat destruct H as [H|H]; try discriminate; exact H|].
+    apply no_nl_app; [intros [H|[]]; discriminate|]. apply no_nl_app; [exact Hbt_nl|].
+    intros H; cbn in H; repeat destruct H as [H|H]; try discriminate; exact H. }
+  rewrite Htext. rewrite match_next_text by (unfold beginl; cbn; discriminate).
+  (* the lines of the file *)
+  assert (Hlines : split_nl (beginl ++ NL :: F ++ NL :: endl ++ NL :: []) =
+                   @cons bytes beginl (@app bytes (split_nl F) (@cons bytes endl (@cons bytes (@nil Z) (@nil bytes))))).
+  { rewrite split_nl_app by exact Hbegin_nl. f_equal. rewrite split_nl_app_gen. f_equal.
+    rewrite split_nl_app by exact Hendl_nl. reflexivity. }
+  rewrite Hlines. cbn [scan_lines].
+  (* the BEGIN line *)
+  assert (Hrs : rstrip beginl = beginl).
+  { unfold beginl, DASH5. rewrite !app_assoc.
+    change [45; 45; 45; 45; 45] with ([45; 45; 45; 45] ++ [45]). rewrite app_assoc. apply rstrip_nows. reflexivity. }
+  rewrite Hrs.
+  assert (Hpre : zprefix BEGIN_PEM beginl = true) by (apply zprefix_spec; eexists; reflexivity).
+  rewrite Hpre.
+  assert (Hend : ends_with (32 :: keytype ++ DASH5) beginl = true).
+  { unfold ends_with. apply zprefix_spec. unfold beginl, bt, pem_block_type. destruct name as [n|].
+    - exists (rev (BEGIN_PEM ++ n)). rewrite <- rev_app_distr. f_equal. rewrite <- !app_assoc. reflexivity.
+    - exists (rev [45; 45; 45; 45; 45; 66; 69; 71; 73; 78]). rewrite <- rev_app_distr. f_equal. }
+  rewrite Hend. cbn [andb].
+  (* the PEM name *)
+  assert (Hnm : strip (slice 11 (zlen beginl - (6 + zlen keytype)) beginl) = match name with Some n => n | None => [] end).
+  { unfold beginl, bt, pem_block_type, slice. destruct name as [n|].
+    - destruct Hname as [Hn Hne].
+      replace (zlen (BEGIN_PEM ++ (n ++ [32] ++ keytype) ++ DASH5) - (6 + zlen keytype) - 11) with (zlen n)
+        by (rewrite !zlen_app; unfold zlen; cbn [length BEGIN_PEM DASH5]; lia).
+      change (Z.to_nat 11) with (length BEGIN_PEM). rewrite skipn_app, Nat.sub_diag, skipn_all. cbn [skipn app].
+      rewrite <- !app_assoc. rewrite firstn_zlen_app.
+      destruct n as [|a n']; [congruence|].
+      destruct (exists_last (l := a :: n') ltac:(discriminate)) as (pre & z & Hpz).
+      assert (Hz : is_ws z = false).
+      { unfold no_ws in Hn. rewrite Hpz, forallb_app in Hn. apply andb_true_iff in Hn as [_ H]. cbn in H.
+        rewrite andb_true_r in H. apply negb_true_iff in H. exact H. }
+      assert (Ha : is_ws a = false).
+      { cbn in Hn. apply andb_true_iff in Hn as [H _]. apply negb_true_iff in H. exact H. }
+      unfold strip. rewrite lstrip_nows by exact Ha. rewrite Hpz. apply rstrip_nows. exact Hz.
+    - replace (zlen (BEGIN_PEM ++ keytype ++ DASH5) - (6 + zlen keytype) - 11) with (-1)
+        by (rewrite !zlen_app; unfold zlen; cbn [length BEGIN_PEM DASH5]; lia).
+      reflexivity. }
+  rewrite Hnm.
+  (* the footer search *)
+  assert (Hfooter : footer_of beginl = endl).
+  { unfold footer_of, beginl, endl, BEGIN_PEM, DASH5. cbn [app firstn skipn]. reflexivity. }
+  rewrite Hfooter.
+  pose proof (b2a_relevant data Hb) as Hrel.
+  pose proof (fold_lines_chars wrap (b2a data) wrap Hrel) as HF. fold F in HF.
+  assert (Hls : Forall (fun l => hd 0 l <> 45) (split_nl F)).
+  { apply Forall_forall. intros l Hl. destruct l as [|c l']; [cbn; lia|]. cbn [hd].
+    destruct (HF c (in_split_nl F (c :: l') c Hl (or_introl eq_refl))) as [H| ->]; [apply relevant_not in H; tauto|discriminate]. }
+  destruct (split_nl_nonempty F) as (h0 & t0 & HsF).
+  assert (Hsearch : find_footer endl (@app bytes (split_nl F) (@cons bytes endl (@cons bytes (@nil Z) (@nil bytes)))) =
+                    Some (F ++ [NL], [])).
+  { pose proof (find_footer_skip endl 45 (split_nl F) [endl; []] eq_refl eq_refl Hls ltac:(discriminate)) as X.
+    eapply eq_trans; [exact X|]. clear X. cbn [find_footer].
+    assert (Hz : zprefix endl endl = true) by (apply zprefix_spec; exists []; rewrite app_nil_r; reflexivity).
+    rewrite Hz, skipn_all. cbn [all_ws forallb andb drop_blank_lines].
+    rewrite lines_concat by (rewrite HsF; discriminate). rewrite join_split_nl, app_nil_r. reflexivity. }
+  rewrite HsF in *. cbn [app] in *. rewrite Hsearch.
+  (* _parse_pem on the body *)
+  assert (Hparse : parse_pem (F ++ [NL]) = Some ([], data)).
+  { unfold parse_pem.
+    assert (Hh : pem_headers (split_nl (F ++ [NL])) = ([], F ++ [NL])).
+    { rewrite split_nl_app_gen, HsF. cbn [app pem_headers].
+      assert (Hnc : ~ In COLON (rstrip h0)).
+      { intros Hin. apply in_rstrip in Hin.
+        destruct (HF COLON (in_split_nl F h0 COLON ltac:(rewrite HsF; left; reflexivity) Hin)) as [H|H];
+          [apply relevant_not in H; tauto|discriminate]. }
+      rewrite split_once_none by exact Hnc.
+      change (h0 :: t0 ++ split_nl []) with ((h0 :: t0) ++ split_nl []). rewrite <- HsF, <- split_nl_app_gen.
+      rewrite join_split_nl. reflexivity. }
+    rewrite Hh.
+    rewrite (a2b_b2a_with_junk data (F ++ [NL]) Hb); [reflexivity|].
+    rewrite filter_app. cbn [filter]. change (b64_relevant NL) with false. cbn iota. rewrite app_nil_r.
+    apply filter_fold_lines. exact Hrel. }
+  rewrite Hparse. reflexivity.
 Qed.
